@@ -361,7 +361,7 @@ def term_kinds(ctx, f, st, t, depth=0):
     return eng.kind_of(t, st.facts)
 
 
-@rule("TS9", ["C02"])
+@rule("TS9", ["C02", "C08"])
 def ts9(ctx, pid):
     """Canonical shape after every mutation: a branch is normalised on every path that may blank a slot (TS3);
     no extension with an empty path can be built (TS4); the child of every extension that is built is known to be a
